@@ -152,6 +152,7 @@ def rule_analysed_config(ctx, R="C02/analysed-config"):
 
 def run(ctx):
     rule_analysed_config(ctx)
+    rule_local_iter_fused(ctx)
     taint = T.Taint(ctx.prog, ENTRIES)
     ctx.analysed["reachable_functions"] = len(taint.reach)
     ctx.analysed["tainted_params"] = len(taint.params)
@@ -397,6 +398,59 @@ FINITE_ITER = ("std::slice::Iter<", "std::slice::IterMut<", "std::iter::Enumerat
                "std::vec::IntoIter<", "std::ops::Range<", "std::ops::RangeInclusive<", "std::slice::ChunksExactMut<", "std::slice::ChunksExact<",
                "std::slice::RChunksExactMut<", "std::slice::Chunks<", "std::slice::ChunksMut<", "std::slice::RChunks<", "std::slice::RChunksExact<", "std::slice::Windows<", "std::slice::SplitN<", "std::str::Split<", "std::io::Lines<", "std::io::Split<", "std::fs::ReadDir",
                "std::iter::range::<impl std::iter::Iterator for std::ops::Range", "&mut I", "procfs_core::process::MemoryMaps", "std::iter::Rev<", "std::str::CharIndices")
+
+def flag_clears(b):
+    """blocks of ProcfsAuxvIter::next that store false to the FIELD self.keep_going (directly, or through mem::replace/take of a reference to
+    that place) — decided on MIR places, because the origin engine cannot tell `&mut self.keep_going` from `&mut copy_of_it`"""
+    def is_flag(pl):
+        pj = pl.get("proj") or []
+        return pl["l"] == 1 and len(pj) >= 2 and pj[0]["k"] == "deref" and pj[-1].get("n") == "keep_going"
+    clears = set()
+    for bi, blk in enumerate(b.blocks):
+        for st in blk["stmts"]:
+            if st["k"] == "assign" and is_flag(st["p"]) and st["r"]["k"] == "use" and st["r"]["o"].get("k") == "const" and st["r"]["o"].get("v") == 0:
+                clears.add(bi)
+        # `mem::replace(&mut self.keep_going, false)` / `mem::take(&mut self.keep_going)`: the same store, made by std through a reference to the field
+        tt = blk["term"]
+        if tt["k"] == "call" and CalleeView(tt["callee"]).short in ("std::mem::replace", "std::mem::take") and \
+                any(st["k"] == "assign" and st["r"]["k"] == "ref" and st["r"]["bk"] == "mut" and is_flag(st["r"]["p"]) for st in blk["stmts"]):
+            a = tt["args"]
+            if CalleeView(tt["callee"]).short == "std::mem::take" or (len(a) > 1 and a[1].get("k") == "const" and a[1].get("v") == 0):
+                clears.add(bi)
+    return clears
+
+
+def rule_local_iter_fused(ctx, R="C02/iter-fused"):
+    """the loop ledger takes ProcfsAuxvIter for a finite iterator because it is FUSED: `keep_going` is cleared before anything that can
+    fail, so after an error item (EOF before AT_NULL, an io error) the next call returns None.  try_filling_missing_info answers an error
+    item with `push; continue` — with an unfused iterator that loop never ends and the soft-error list grows without bound.  Decided
+    here: in next(), every path from the entry to a call passes a store `self.keep_going = false` (the field of self, not a local copy of
+    it), and the entry tests that field."""
+    b = ctx.body(R, "<linux::auxv::reader::ProcfsAuxvIter as std::iter::Iterator>::next")
+    if b is None:
+        return
+
+    clears = flag_clears(b)
+    ctx.floor(R, "stores of false to self.keep_going in next()", len(clears), 1)
+    o = Origin(b)
+    t0 = None
+    for g in range(b.n):
+        t = b.term(g)
+        if t["k"] == "switch" and t.get("oty") == "bool":
+            atom, _h = switch_atom(b, o, g)
+            if any(q[0] == "field" and q[2] == "keep_going" and root(q[1]) == ("param", 1) for q in walk(atom)):
+                t0 = g
+                break
+    c0 = min(clears) if clears else 0
+    ctx.check(t0 is not None and (b.dominates(t0, c0) or b.dominates(c0, t0)), R, "tests-the-field", b.where(t0 or 0), "next() begins by testing self.keep_going",
+              "no test of self.keep_going dominates the rest of next(): an iterator that has failed goes on reading")
+    calls = [bi for bi, t in b.calls() if bi not in clears]
+    bad = [b.where(x) for x in calls if must_pass(b, 0, {x}, clears) is not None]
+    ctx.check(not bad and bool(clears), R, "cleared-before-any-call", b.where(min(clears)) if clears else b.where(0),
+              "self.keep_going is cleared before anything that can fail: the iterator ends after its first error item",
+              "call(s) in next() can be reached without `self.keep_going = false` having been stored (%s): after a failed read the iterator yields the same error for ever, and the loop that skips error items never ends" % ", ".join(bad[:4]))
+
+
 LOCAL_FINITE_ITER = {
     "<linux::auxv::reader::ProcfsAuxvIter as std::iter::Iterator>::next": "yields until AT_NULL / EOF / first error of a finite procfs file (keep_going is cleared before each item)",
     "<linux::module_reader::DynIter<'_> as std::iter::Iterator>::next": "consumes a fixed-size entry of a finite slice per item",
